@@ -90,7 +90,12 @@ def rule_multi_index(run):
     shape.run_multi_index_rule(run, "C09.d")
 
 
-RULES = [rule_rows, rule_siblings, rule_intarith, rule_ext, rule_widths, rule_literals, rule_castmatrix, rule_multi_index]
+def rule_resize(run):
+    from ..rules import resizemodel
+    resizemodel.run_rule(run, "C09.resize")
+
+
+RULES = [rule_rows, rule_siblings, rule_intarith, rule_ext, rule_widths, rule_literals, rule_castmatrix, rule_multi_index, rule_resize]
 LEVEL = "other"
 EXPLANATION = (
     "Structural agreement between the compile-time (folding) path and the run-time path of primitive operators: "
